@@ -196,7 +196,12 @@ Qed.
 (* ... so saving never meets a name that leaves the tree: the guard of the file-system model (names with
    ".." are outside the model) does not fire, the only error left is a failed output operation *)
 Lemma mop_err (op : fsys -> fsys + fserr) on_err fs fs' e : mop op on_err fs = (fs', RErr e) -> exists x, on_err x = RErr e.
-Proof. unfold mop. destruct (op fs) as [fs1|x]; [discriminate|]. intros [= _ H]. eauto. Qed.
+Proof.
+  unfold mop. destruct (fs_fault fs) as [[|k]|].
+  - intros [= _ H]. eauto.
+  - destruct (op _) as [fs1|x]; [discriminate|]. intros [= _ H]. eauto.
+  - destruct (op fs) as [fs1|x]; [discriminate|]. intros [= _ H]. eauto.
+Qed.
 
 Lemma mbind_err {A B} (x : M A) (f : A -> M B) fs fs' e : mbind x f fs = (fs', RErr e) ->
   x fs = (fs', RErr e) \/ exists a fs1, x fs = (fs1, ROk a) /\ f a fs1 = (fs', RErr e).
